@@ -256,7 +256,11 @@ class ScheduleMonitor(O.Monitor):
 
             def option_of(nid):
                 nd = self.spec["nodes"][nid - 1]
-                if nid not in self.tt or nd.get("prio_preempt") or nd.get("ps"):
+                if nid not in self.tt or nd.get("ps"):
+                    return None
+                if nd.get("prio_preempt") and nd["servers"].get("preemption"):
+                    return (nd["prio_preempt"], nd["servers"]["preemption"])
+                if nd.get("prio_preempt"):
                     return None
                 return nd["servers"].get("preemption") or None
             episodes.audit(Q, option_of, lambda clause, d: Q.report(self.P, "C12." + clause, "audit", d), self.activity)
